@@ -21,6 +21,7 @@ RULE += ' 15% of the sessions read two data sources (composite oracle).'
 RULE += " 20% of the signal sessions build their SignalsCollection on its own data handler (same files, other adjustment setting; feeds are compared with that handler's closes); inverse-volatility cases with an SMA put the two signals of one collection on different universes; a signal fed an asset outside its own universe is a violation."
 RULE += ' Observations are recorded where they land (AssetPriceBuffers.append); 40% of the SMA sessions use a user-defined subclass overriding append() with its own tally, which must agree with what reached its buffers.'
 RULE += ' Direct streams: half-way the signal is deep-copied and the copy fed six other prices - copy and original are both checked against their own streams. Sessions: a quarter of the dynamic universes are a user-defined Universe subclass (not derived from DynamicUniverse).'
+RULE += ' 12% of the direct streams are pegged instruments (closes within 4 ppm of 1.0).'
 ASSUMPTIONS = ['momentum/SMA 1e-9 relative; volatility 1e-9 relative (+1e-12 absolute)',
                'a session that raises the documented NaN-price ValueError is checked up to that instant']
 ALPHAS = ('topn_mom', 'sma_trend', 'inv_vol', 'mom_sign')
